@@ -213,3 +213,19 @@ From Verif Require Import GoFuncs GenEqNick.
 Theorem gen_C18_hasPort : forall s, go_client_hasPort s = Ok (has_port s).
 Proof. exact go_hasPort_eq. Qed.
 Print Assumptions gen_C18_hasPort.
+
+(* generated-code tie, stage 2: the handlers.  The Gallina TRANSLATION of h_PING and h_REGISTER
+   (Gen/GoFuncs.v: the receiver / line fields used are parameters, the result is the list of lines
+   sent, a panic is Panic) gives the model's lines when the model does not panic, and Panic
+   exactly when it does (Proofs/GenEqHandlers.v; conn.cfg.Me as an option of the tuple
+   (Nick, Ident, Host, Name), [onick]) *)
+From Verif Require Import GenEqHandlers.
+Theorem gen_C18_h_PING : forall l,
+  go_client_Conn_h_PING (l_args l) = if snd (h_PING l) then Panic else Ok (fst (h_PING l)).
+Proof. exact go_h_PING_eq. Qed.
+Theorem gen_C18_h_REGISTER : forall c,
+  go_client_Conn_h_REGISTER (rc_negotiate c) (onick (rc_me c)) (rc_pass c)
+  = if snd (emit_register c) then Panic else Ok (fst (emit_register c)).
+Proof. exact go_h_REGISTER_eq. Qed.
+Print Assumptions gen_C18_h_PING.
+Print Assumptions gen_C18_h_REGISTER.
